@@ -61,24 +61,49 @@ def run(facts, rep):
     rep.saw(b)
     names = [b.local_name(k) for k in range(1, b.arg_count + 1)]
     need(names == ['self', 'i', 'p', 'q', 'r', 's'], 'update_mats', 'parameters are %s' % names)
-    got = {}
+    from symex import apply_closure
+    ins = {}
+    unknown_ins = []
+
+    def value_of(t):
+        """the stored matrix, seen through Option::map(closure) / unwrap"""
+        t = strip(t)
+        if t[0] == 'field' and t[2] == 'Some.0':
+            m = strip(t[1])
+            if m[0] == 'call' and m[1].split('::')[-1] == 'map' and len(m[2]) == 2:
+                ps = apply_closure(m[2][1], [('field', m[2][0], 'Some.0')])
+                rets = [q.ret for q in (ps or []) if q.end == 'return']
+                if len({sk(r) for r in rets}) == 1:
+                    return strip(rets[0])
+        return t
     for e, p in cs:
         last = e.name.split('::')[-1]
         a = [sk(x) for x in e.args]
-        if last == 'reduce_mat_rows':
-            got['rows'] = (a[0], a[1], a[2])
-        elif last == 'reduce_mat_cols':
-            got['cols'] = (a[0], a[1], a[2])
-        elif last == 'insert' and 'mats' in a[0]:
-            got.setdefault('ins', []).append((a[1], a[2][:40]))
-    need(got.get('rows') == ('matrix(arg1, deg_trip(arg1, arg2).0).Some.0', 'arg4', 'arg5'), 'update_mats',
-         'incoming differential reduced as %s; expected rows of d_{i-d} by q, r' % (got.get('rows'),))
-    need(got.get('cols') == ('matrix(arg1, deg_trip(arg1, arg2).2).Some.0', 'arg3', 'arg5'), 'update_mats',
-         'outgoing differential reduced as %s; expected columns of d_{i+d} by p, r' % (got.get('cols'),))
-    ins = dict(got.get('ins', []))
-    need(ins.get('deg_trip(arg1, arg2).1') == 'arg6' and ins.get('deg_trip(arg1, arg2).0', '').startswith('reduce_mat_rows(') and
-         ins.get('deg_trip(arg1, arg2).2', '').startswith('reduce_mat_cols('), 'update_mats', 'matrices stored as %s' % ins)
+        if last == 'insert' and 'mats' in a[0] and len(e.args) == 3:
+            v = value_of(e.args[2])
+            ins.setdefault(a[1], set()).add(re.sub(r'&mut _\d+', 'IT', re.sub(r'#\d+\.\d+', '', show(v, -1000))))
 
+    def mat_at(k):
+        return r'(matrix\(arg1, deg_trip\(arg1, arg2\)\.%d\)|get\(&(post\()*\*?arg1\.mats\)*, &deg_trip\(arg1, arg2\)\.%d\))\.Some\.0' % (k, k)
+    want = {'deg_trip(arg1, arg2).0': r'reduce_mat_rows\(%s, arg4, arg5\)$' % mat_at(0),
+            'deg_trip(arg1, arg2).1': r'arg6$',
+            'deg_trip(arg1, arg2).2': r'reduce_mat_cols\(%s, arg3, arg5\)$' % mat_at(2)}
+    for key, rx in want.items():
+        vals = ins.get(key, set())
+        what = {'deg_trip(arg1, arg2).0': 'incoming differential d_{i-d}: rows reduced by q, r', 'deg_trip(arg1, arg2).1': 'd_i := s',
+                'deg_trip(arg1, arg2).2': 'outgoing differential d_{i+d}: columns reduced by p, r'}[key]
+        if vals and all(re.match(rx, v) for v in vals):
+            continue
+        known = vals and all(re.match(r'(reduce_mat_rows|reduce_mat_cols)\(.*, arg[345], arg[345]\)$|arg\d$', v) for v in vals)
+        if known:
+            need(False, 'update_mats', '%s is stored as %s' % (what, sorted(vals)))
+        else:
+            unknown_ins.append('%s: %s' % (key, sorted(vals)))
+    if set(ins) - set(want):
+        unknown_ins.append('extra keys %s' % sorted(set(ins) - set(want)))
+    if unknown_ins:
+        rep.indet('E18: update_mats outside the recognised fragment: %s' % '; '.join(unknown_ins)[:400])
+        return
     # update_trans(self, i, p, q, t_src, t_tgt)
     b, cs = _calls(facts, 'update_trans')
     if b is None:
